@@ -102,6 +102,15 @@ pub fn gen_pcm(kind: &str, rng: &mut Rng, channels: usize, bps: u32, frames: usi
                     _ => { let step = (hi / 64).max(1); walk[c] = (walk[c] + rng.range(-step, step)).clamp(lo, hi); walk[c] }
                 },
                 "noise" => rng.range(lo, hi),
+                // residual magnitude varies strongly inside a block: loudness doubles every few samples (period 16 / 64)
+                "fade" | "fade64" => {
+                    let period = if kind == "fade" { 16 } else { 64 };
+                    let top = bps.saturating_sub(2).max(1) as usize;
+                    let sh = top - ((i % period) * top / period).min(top);
+                    rng.range(lo, hi) >> sh
+                }
+                // near silence with a loud burst in the last quarter of every 16 samples
+                "burst" => if i % 16 >= 12 { rng.range(lo / 2, hi / 2) } else { rng.range(-1.max(lo), 1.min(hi)) },
                 "small" => rng.range(-3.max(lo), 3.min(hi)),
                 "sine" => {
                     let f = 0.01 + 0.013 * c as f64;
@@ -262,6 +271,10 @@ impl Trace {
         serde_json::to_writer(&mut self.out, &v).unwrap();
         self.out.write_all(b"\n").unwrap();
         self.lines += 1;
+    }
+    /// everything recorded so far reaches the file (called per item by the drivers that may be killed mid-item)
+    pub fn flush(&mut self) {
+        self.out.flush().unwrap();
     }
     pub fn finish(mut self) -> usize {
         self.out.flush().unwrap();
